@@ -79,6 +79,8 @@ class Injector:
         wrap(h5py.Group, "create_group")
         wrap(h5py.Group, "require_group")
         wrap(h5py.AttributeManager, "__setitem__")
+        wrap(h5py.AttributeManager, "create")
+        wrap(h5py.AttributeManager, "modify")
         wrap(h5py.Group, "__delitem__")
         # every other way h5py has of writing into a file
         wrap(h5py.Dataset, "__setitem__")
